@@ -492,6 +492,32 @@ func (e *Exec) assertProp(c *Term, label, pos string) {
 	e.assertPC(c)
 }
 
+// softViolation records a violation found by an engine-side monitor (pool double release,
+// use after release) and lets the path continue, so that harness-level assertions that
+// expose the same defect natively are still reached. Deduplicated per path and label.
+func (e *Exec) softViolation(label, pos string) {
+	for _, v := range e.cur.violations {
+		if v.Label == label {
+			return
+		}
+	}
+	var model []uint64
+	if e.sol.Check() == Sat {
+		model = e.sol.GetTermValues(e.vecTerms())
+	} else {
+		model = make([]uint64, len(e.vecTerms()))
+	}
+	st := e.cur.asserts[label]
+	if st == nil {
+		st = &AssertStat{}
+		e.cur.asserts[label] = st
+	}
+	st.Checked++
+	st.Violated++
+	e.cur.violations = append(e.cur.violations, Violation{Label: label, Kind: "monitor", Pos: pos,
+		Vector: e.vector(model), Prefix: append([]int64(nil), e.prefix...)})
+}
+
 // runPath executes the harness once along the given prefix.
 func (e *Exec) runPath(fn *ssa.Function, prefix []int64) (res *PathResult) {
 	e.prefix = append([]int64(nil), prefix...)
